@@ -378,7 +378,174 @@ def rule_vecdeque(ck):
     ck.ob("table.vecdeque_ring", "len-clamped-to-cap", okl, "", f.loc(), what="VecDeque length from memory is not bounded by the capacity")
 
 
+HB = "debugger::variable::value::specialization::hashbrown"
+
+
+def _byte_taint(g):
+    """locals carrying a control byte (u8 locals and their casts / copies)"""
+    T = {i for i, l in enumerate(g.raw["locals"]) if l[0] == "u8"}
+    changed = True
+    while changed:
+        changed = False
+        for i, j, pl, rv, sp in g.assigns():
+            if len(pl) != 1 or pl[0] in T:
+                continue
+            if rv["r"] in ("use", "cast"):
+                l = op_local(rv["op"])
+                if l in T:
+                    T.add(pl[0])
+                    changed = True
+    return T
+
+
+def _classify_matcher(g):
+    """which control bytes does this mask function select?  'special' (EMPTY or DELETED: top bit set), 'full'
+    (top bit clear) or None with a reason, from the single test applied to the control byte"""
+    T = _byte_taint(g)
+    tests = []
+    signed = set()
+    for i, j, pl, rv, sp in g.assigns():
+        if rv["r"] == "cast" and op_local(rv["op"]) in T and rv.get("ty") == "i8":
+            signed.add(pl[0])
+        if rv["r"] != "bin" or sp[3]:
+            continue
+        a, b = op_local(rv["a"]), op_local(rv["b"])
+        ca, cb = op_const(rv["a"]), op_const(rv["b"])
+        op = rv["op"].replace("WithOverflow", "").replace("Unchecked", "")
+        if a in T and cb is not None:
+            tests.append((op, cb, pl[0], i, a in signed))
+        elif b in T and ca is not None:
+            flip = {"Lt": "Gt", "Gt": "Lt", "Le": "Ge", "Ge": "Le"}.get(op, op)
+            tests.append((flip, ca, pl[0], i, b in signed))
+        elif (a in T or b in T) and op not in ("Shl", "BitOr"):
+            tests.append((op, None, pl[0], i, False))
+    tests = [t for t in tests if not (t[0] in ("Lt",) and t[1] in (8, 16, 32, 64) and False)]
+    if len(tests) != 1:
+        return None, f"{len(tests)} operations on the control byte: {[(t[0], t[1]) for t in tests]}"
+    op, c, dst, bb, sg = tests[0]
+    if op == "Shr" and c == 7:
+        # data form: (b >> 7) << i, accumulated with |
+        ok = False
+        for i, j, pl, rv, sp in g.assigns():
+            if rv["r"] == "bin" and rv["op"].startswith("Shl") and op_local(rv["a"]) is not None:
+                e = expr_of(g, rv["a"], depth=4)
+                if e[0] == "bin" and e[1] == "Shr":
+                    pos = expr_str(expr_of(g, rv["b"], depth=6), 6)
+                    ok = "next" in pos or "enumerate" in pos
+        return ("special", "(b >> 7) << i") if ok else (None, "top bit not placed at the byte's position")
+    truth = None  # what a true outcome says about the byte
+    if not sg and ((op == "Lt" and c == 0x80) or (op == "Le" and c == 0x7F)):
+        truth = "full"
+    elif not sg and ((op == "Ge" and c == 0x80) or (op == "Gt" and c == 0x7F)):
+        truth = "special"
+    elif sg and op == "Lt" and c == 0:
+        truth = "special"
+    elif sg and op == "Ge" and c == 0:
+        truth = "full"
+    elif op == "BitAnd" and c == 0x80:
+        # followed by ==0 / !=0
+        for i, j, pl, rv, sp in g.assigns():
+            if rv["r"] == "bin" and rv["op"] in ("Eq", "Ne") and {op_local(rv["a"]), op_local(rv["b"])} & {dst} and 0 in (op_const(rv["a"]), op_const(rv["b"])):
+                truth = "full" if rv["op"] == "Eq" else "special"
+                dst, bb = pl[0], i
+    if truth is None:
+        return None, f"control byte test {op} {c:#x}" if c is not None else f"control byte test {op}"
+    # which outcome sets the bit
+    for b, blk in enumerate(g.blocks):
+        t = blk["term"]
+        if t["t"] == "switch" and op_local(t["discr"]) is not None and _root(g, t["discr"]) == _root(g, dst):
+            false_t = [x for v, x in t["arms"] if int(v) == 0]
+            true_t = [x for v, x in t["arms"] if int(v) == 1] or [t["otherwise"]]
+            false_t = false_t or [t["otherwise"]]
+            stop = {g.ipdom(b)}
+            def sets_bit(starts):
+                reg = g.reach_from(starts, avoid=stop) | set(starts)
+                return any(rv["r"] == "bin" and rv["op"] == "BitOr" for i, j, pl, rv, sp in g.assigns() if i in reg and i not in stop)
+            st, sf = sets_bit(true_t), sets_bit(false_t)
+            if st and not sf:
+                return truth, f"{op} {c:#x} sets the bit"
+            if sf and not st:
+                return ("special" if truth == "full" else "full"), f"!({op} {c:#x}) sets the bit"
+    return None, "no branch on the control byte test sets a mask bit"
+
+
+def _is_invert(g):
+    """BitMask -> BitMask complementing all 16 bits"""
+    for i, j, pl, rv, sp in g.assigns():
+        if rv["r"] == "bin" and rv["op"] == "BitXor" and 0xFFFF in (op_const(rv["a"]), op_const(rv["b"])):
+            return True
+        if rv["r"] == "un" and rv["op"] == "Not":
+            return True
+    return False
+
+
+def rule_hashbrown(ck):
+    prog = ck.prog
+    ck.rule("bits.hashbrown_full", "hashbrown control bytes: a bucket holds an element iff the top bit of its control byte is clear (EMPTY = 0xFF and DELETED = 0x80 both have it set). The mask stored in BucketIterator.current_group — at construction and at every refill — selects exactly the bytes with the top bit clear: the per-byte test depends on bit 7 only, the bit is placed at the byte's position, and the number of complements between the test and the use gives polarity `full`")
+    sites = []
+    it = ck.anchor(HB + "::HashmapReflection::iter")
+    for i, j, pl, rv, sp in it.assigns():
+        if rv["r"] == "agg" and rv["name"].endswith("hashbrown::BucketIterator"):
+            flds = dict(zip(rv.get("fields", []), rv["ops"]))
+            if "current_group" in flds:
+                sites.append(("iter/construct", it, i, flds["current_group"]))
+    nx = [f for p, f in prog.fns.items() if p.startswith("<" + HB + "::BucketIterator as ") and p.endswith("::next")]
+    for f in nx:
+        ck.saw(f)
+        for c in f.calls():
+            pass
+        for b, blk in enumerate(f.blocks):
+            for st in blk["stmts"]:
+                if st["s"] == "assign" and st["p"][-1:] == [".current_group"] and st["rv"]["r"] == "use":
+                    e = expr_of(f, st["rv"]["op"], depth=10)
+                    if "load" in expr_str(e, 10):
+                        sites.append(("next/refill", f, b, st["rv"]["op"]))
+    ck.floor("bits.hashbrown_full", "current_group definitions from a loaded group", len(sites), 2)
+    for key, f, b, op in sites:
+        e = expr_of(f, op, depth=14)
+        chain = []
+        cur = e
+        while True:
+            if cur[0] == "try":
+                cur = cur[1]
+                continue
+            if cur[0] == "call" and cur[1].startswith(HB) and cur[2]:
+                chain.append(cur[1])
+                cur = cur[2][0]
+                continue
+            break
+        names = [c.split("::")[-1] for c in chain]
+        ok = bool(chain) and chain[-1].endswith("GroupReflection::load")
+        ck.ob("bits.hashbrown_full", f"{key}/from-loaded-group", ok, f"{' <- '.join(names)}", f.loc(b))
+        if not ok:
+            continue
+        inverts = 0
+        pol, why = None, "no mask function"
+        for c in chain[:-1]:
+            g = prog.fns.get(c)
+            if g is None:
+                pol, why = None, f"unknown function {c}"
+                break
+            ck.saw(g)
+            if _is_invert(g) and not any(x for x in g.calls()):
+                inverts += 1
+                continue
+            pol, why = _classify_matcher(g)
+            break
+        if pol is not None and inverts % 2 == 1:
+            pol = "special" if pol == "full" else "full"
+        ck.ob("bits.hashbrown_full", f"{key}/selects-top-bit-clear", pol == "full", f"{' <- '.join(names)}: {why}; {inverts} complement(s) => {pol}", f.loc(b), what="the hash-table walk treats a control byte other than 0x00..0x7F as a full bucket (or skips full ones)")
+    # the walk visits every set bit: lowest_set_bit then remove_lowest_bit = x & (x - 1)
+    rl = ck.anchor(HB + "::BitMask::remove_lowest_bit")
+    e = None
+    for i, j, pl, rv, sp in rl.assigns():
+        if rv["r"] == "bin" and rv["op"] == "BitAnd":
+            e = expr_str(expr_of(rl, pl[0], depth=6), 6)
+    ck.ob("bits.hashbrown_full", "remove_lowest_bit=x&(x-1)", e is not None and "Sub" in e and "1" in e, f"{e}", rl.loc())
+
+
 def run(ck):
+    rule_hashbrown(ck)
     rule_vecdeque(ck)
     rule_scalar_table(ck)
     rule_version_tables(ck)
